@@ -50,6 +50,16 @@ def gen_rg(rng: random.Random, *, max_vars: int = 5, image_ok: bool = True) -> R
     return {"algo": "pd", "shape": list(shape), "delta": [1]}
 
 
+def gen_long_rg(rng: random.Random) -> Recipe:
+    """More than 128 variables (thin circuits): index tensors, fold counts and layer counts beyond
+    what fits a signed byte."""
+    n = rng.randint(129, 140)
+    if rng.random() < 0.5:
+        return {"algo": "linear", "n": n, "reps": 1, "randomize": rng.random() < 0.5,
+                "seed": rng.randrange(10**6)}
+    return {"algo": "ff", "n": n, "reps": rng.choice([1, 2])}
+
+
 def rg_num_vars(rg: Recipe) -> int:
     if "n" in rg:
         return int(rg["n"])
